@@ -148,6 +148,8 @@ class C06(Prop):
         return x
 
     def run_impl(self, c):
+        if c["kind"] == "mixers":
+            return self._mixer_run(c)
         if c["kind"] == "overlap":
             return vloop.run(param_impl.run_overlap, c["tbl"], c["idx"], c["triple"], c["req"], c["retries"], c["events"])
         if c["kind"].startswith("frames:"):
@@ -183,6 +185,8 @@ class C06(Prop):
         return reqs
 
     def model_many(self, cases):
+        if cases and all(c["kind"] == "mixers" for c in cases):
+            return [None] * len(cases)
         reqs = self._reqs(cases)
         fix = lambda r: [[([o[0], bool(o[1])] if o[0] == 2 else o) for o in pt] for pt in r]
         args = [[[False] * 4, c["triple"], (r if isinstance(r, int) else 0), 2, []] for c, r in zip(cases, reqs)]
@@ -228,6 +232,8 @@ class C06(Prop):
         return [[[o for o in pt if o[0] in (0, 3)] for pt in b[0]], b[1]]
 
     def spec_many(self, cases, behaviours):
+        if cases and all(c["kind"] == "mixers" for c in cases):
+            return [self._mixer_ok(c, b) for c, b in zip(cases, behaviours)]
         reqs = self._reqs(cases)
         args, idx = [], []
         res = [True] * len(cases)
@@ -265,6 +271,75 @@ class C06(Prop):
         for i, r in zip(idx, model.call_many("P06", args)):
             res[i] = bool(r)
         return res
+
+    # ---- mixers of a real device: the ranges reach each Mixer through the ecoMAX's decoding of multi-mixer responses ----
+    def _mixer_case(self, rng):
+        t = G.tables()
+        product = rng.choice([0, 1])
+        tab = t[param_impl.TABLES[2 + product]]
+        plain = [i for i, d in enumerate(tab) if not d["switch"] and d["multiplier"] == 1.0 and d["offset"] == 0 and d["size"] == 1]
+        pidx = rng.choice(plain)
+        nm = rng.choice([2, 2, 3, 4])
+        reports = []
+        for _ in range(rng.choice([1, 1, 2, 3])):
+            slots = []
+            for m in range(nm):
+                if rng.random() < 0.35:
+                    slots.append(None)                                   # this mixer is not connected: its block is all 0xFF
+                else:
+                    lo = rng.randrange(0, 100)
+                    hi = rng.randrange(lo, 255)
+                    slots.append([rng.randrange(lo, hi + 1), lo, hi])
+            if all(x is None for x in slots):
+                slots[rng.randrange(nm)] = [40, 30, 60]
+            reports.append(slots)
+        mixer = rng.randrange(nm)
+        last = next((r[mixer] for r in reversed(reports) if r[mixer] is not None), None)
+        cand = [0, 254, rng.randrange(255)]
+        for r in reports:
+            for x in r:
+                if x is not None:
+                    cand += [x[1], x[2], x[2] + 1, max(0, x[1] - 1)]
+        value = rng.choice([c for c in cand if 0 <= c <= 254])
+        return {"kind": "mixers", "product": product, "pidx": pidx, "reports": reports, "mixer": mixer, "value": value, "last": last,
+                "b0": rng.randrange(256)}
+
+    def _mixer_run(self, c):
+        payloads = []
+        for slots in c["reports"]:
+            blocks = [[([x] if x is not None else [])] for x in slots]
+            payloads.append(list(model.call("enc_mixer_params", [c["b0"], c["pidx"], 1, blocks])))
+        return vloop.run(param_impl.run_mixer_session, c["product"], payloads, c["mixer"], c["pidx"], c["value"])
+
+    def _mixer_ok(self, c, b):
+        """judged against what the controller last reported for THAT mixer (ground truth of the harness)"""
+        last = c["last"]
+        if last is None:
+            # nothing was ever reported for this mixer: no range exists, so nothing may be written to it
+            return b in (["no-mixer"], ["no-parameter"]) or (len(b) == 3 and b[1] == [])
+        if len(b) != 3:
+            return False
+        out, sent, held = b
+        v, lo, hi = c["value"], last[1], last[2]
+        if lo <= v <= hi:
+            return out != "ValueError" and all(m == [c["mixer"], c["pidx"], v] for m in sent) and held[1:] == [lo, hi] and \
+                (sent != [] or v == last[0])
+        return out == "ValueError" and sent == [] and held == last
+
+    def extra_checks(self, tier, rng):
+        fails = []
+        self._mixer_runs = 0
+        for _ in range(150 if tier == "quick" else 3000):
+            c = self._mixer_case(rng)
+            b = self._mixer_run(c)
+            self._mixer_runs += 1
+            if not self._mixer_ok(c, b):
+                fails.append({"case": c, "impl": b, "reason": "a mixer's parameter was validated or written against a range the controller "
+                              "did not report for that mixer"})
+        return fails
+
+    def extra_coverage(self):
+        return {"mixer_sessions": getattr(self, "_mixer_runs", 0)}
 
     def nontrivial_key(self, c, mb):
         return repr(c) if mb is not None else None
